@@ -381,3 +381,173 @@ Proof.
   destruct (group_first g0 Wg) as [V0 R0]. split; [exact V0|].
   change (goffset (put_grp e0 0 (set_pos g0 0 0)) 0) with 0. rewrite grank_set_pos. unfold first_cell in R0. cbn [Z.add]. exact R0.
 Qed.
+
+(* ---- backward: menu-complete-backward, cyclePreviousGroup, lastCell *)
+
+Theorem select_backward_step : forall e i g, all_wf e -> e_cur e = i -> nth_grp e i = Some g -> gvalid g (pos_of g) ->
+  exists e' i' g', select e (-1) = Ok e' /\ all_wf e' /\ gtotals e' = gtotals e /\ zlen (e_groups e') = zlen (e_groups e) /\
+    e_cur e' = i' /\ nth_grp e' i' = Some g' /\ gvalid g' (pos_of g') /\
+    goffset e' i' + grank g' (pos_of g') = (goffset e i + grank g (pos_of g) - 1) mod Gtotal e.
+Proof.
+  intros e i g W Hc Hg V. pose proof (nth_grp_some e i g Hg) as Hi.
+  assert (Wg : gwf g) by (apply (W i g Hg)). pose proof (gwf_nonempty g Wg) as Ng.
+  unfold select. rewrite current_id by lia. rewrite Hc, Hg. replace (nrows g =? 0) with false by lia.
+  pose proof (group_backward g (pos_of g) Wg V) as F. unfold at_cell in F. unfold pos_of in F at 1 2. cbn [fst snd] in F. rewrite set_pos_eta in F.
+  assert (RG : 0 <= grank g (pos_of g) < gtotal g).
+  { unfold grank, gtotal, gvalid, gwf in *. destruct (g_aliased g); [apply rank_al_range | apply rank_plain_range]; assumption. }
+  assert (OL : goffset e i + gtotal g <= Gtotal e).
+  { rewrite <- (goffset_succ e i g Hg). rewrite <- goffset_all. apply goffset_le; try assumption; lia. }
+  assert (O0 : 0 <= goffset e i) by (replace 0 with (goffset e 0) by reflexivity; apply goffset_le; try assumption; lia).
+  assert (D : (if g_aliased g then (0, -1) else (-1, 0)) = gdir g (-1)) by reflexivity. rewrite D.
+  destruct (gdir g (-1)) as [dx dy]. cbn [fst snd] in F.
+  destruct (move_selector g dx dy) as [[[g1 done] next]| |]; try contradiction. cbn [bind].
+  destruct done; cbn [negb].
+  - (* the start of the group: the last candidate of the previous one *)
+    destruct F as ((a & b & ->) & -> & F2).
+    set (e1 := put_grp e i (set_pos g a b)).
+    assert (W1 : all_wf e1) by (apply all_wf_put; [exact W | lia | exact Wg]).
+    assert (T1 : gtotals e1 = gtotals e) by (apply (gtotals_put e i g); [exact Hg | apply gtotal_set_pos]).
+    assert (L1 : zlen (e_groups e1) = zlen (e_groups e)) by apply put_grp_len.
+    rewrite (cycle_group_step (length (e_groups e1)) e1 (-1) W1) by (cbn [e_cur put_grp e1]; try lia; right; reflexivity).
+    cbn [bind]. change (0 <? -1) with false. cbv iota.
+    change (e_cur e1) with (e_cur e). rewrite Hc, L1.
+    set (i' := if i =? 0 then zlen (e_groups e) - 1 else i - 1).
+    assert (Hi' : 0 <= i' < zlen (e_groups e)) by (unfold i'; destruct (i =? 0) eqn:E; lia).
+    set (e2 := {| e_groups := e_groups e1; e_cur := i' |}).
+    assert (N2 : forall j, nth_grp e2 j = nth_grp e1 j) by reflexivity.
+    destruct (nth_grp e2 i') as [ng|] eqn:G2.
+    + cbn [e_cur e2]. rewrite G2.
+      assert (Wn : gwf ng) by (apply (W1 i' ng); rewrite <- N2; exact G2).
+      destruct (group_last ng Wn) as (lg & LC & LE & LV & LR). rewrite LC. cbn [bind].
+      assert (W2 : all_wf e2) by (intros j gj Hj; apply (W1 j gj); rewrite <- N2; exact Hj).
+      assert (TL : gtotal lg = gtotal ng) by (rewrite LE; apply gtotal_set_pos).
+      assert (GRl : forall c, grank lg c = grank ng c) by (intros c; rewrite LE; apply grank_set_pos).
+      assert (GVl : forall c, gvalid lg c <-> gvalid ng c) by (intros c; rewrite LE; split; intros X; exact X).
+      exists (put_grp e2 i' lg), i', lg.
+      split; [reflexivity|]. split; [apply all_wf_put; [exact W2 | lia | rewrite LE; exact Wn]|].
+      split; [rewrite (gtotals_put e2 i' ng lg G2 TL); exact T1|].
+      split; [rewrite put_grp_len; exact L1|]. split; [reflexivity|].
+      split; [apply put_grp_same; cbn [e_groups e2]; rewrite L1; exact Hi'|]. split; [apply GVl; exact LV|].
+      unfold goffset at 1. rewrite (gtotals_put e2 i' ng lg G2 TL).
+      change (gtotals e2) with (gtotals e1). rewrite T1. fold (goffset e i'). rewrite GRl, LR, F2.
+      (* the group at i' in e1 is the one of e, unless it is the group we just left (a single group) *)
+      assert (Gn : exists gn, nth_grp e i' = Some gn /\ gtotal gn = gtotal ng).
+      { destruct (Z.eq_dec i' i) as [Ei|Ni].
+        - exists g. rewrite Ei. split; [exact Hg|]. rewrite N2 in G2. unfold e1 in G2. rewrite Ei in G2. rewrite put_grp_same in G2 by exact Hi.
+          inversion G2; subst ng. symmetry. apply gtotal_set_pos.
+        - exists ng. rewrite N2 in G2. unfold e1 in G2. rewrite put_grp_other in G2 by lia. split; [exact G2 | reflexivity]. }
+      destruct Gn as (gn & Hgn & Tgn). rewrite <- Tgn.
+      pose proof (gtotal_pos gn (W _ _ Hgn)) as Pn.
+      assert (OLn : goffset e i' + gtotal gn <= Gtotal e).
+      { rewrite <- (goffset_succ e i' gn Hgn). rewrite <- goffset_all. apply goffset_le; try assumption; lia. }
+      assert (O0n : 0 <= goffset e i') by (replace 0 with (goffset e 0) by reflexivity; apply goffset_le; try assumption; lia).
+      unfold i' in *. destruct (i =? 0) eqn:E.
+      * assert (I0 : i = 0) by lia.
+        assert (G0 : goffset e i = 0) by (rewrite I0; reflexivity).
+        rewrite G0.
+        assert (goffset e (zlen (e_groups e) - 1) + gtotal gn = Gtotal e).
+        { rewrite <- (goffset_succ e _ gn Hgn). replace (zlen (e_groups e) - 1 + 1) with (zlen (e_groups e)) by lia. apply goffset_all. }
+        replace (0 + 0 - 1) with (Gtotal e - 1 + (-1) * Gtotal e) by lia. rewrite Z_mod_plus_full. rewrite Z.mod_small by lia. lia.
+      * pose proof (goffset_succ e (i - 1) gn Hgn) as GS. replace (i - 1 + 1) with i in GS by lia.
+        rewrite Z.mod_small by lia. lia.
+    + exfalso. unfold nth_grp in G2. cbn [e_groups e2] in G2. replace (i' <? 0) with false in G2 by lia.
+      apply nth_error_None in G2. unfold zlen in *. lia.
+  - (* inside the group *)
+    destruct F as (F1 & F2 & F3).
+    exists (put_grp e i g1), i, g1.
+    assert (E1 : gtotal g1 = gtotal g) by (rewrite F1; apply gtotal_set_pos).
+    split; [reflexivity|]. split; [apply all_wf_put; [exact W | lia | rewrite F1; exact Wg]|].
+    split; [apply (gtotals_put e i g); [exact Hg | exact E1]|].
+    split; [apply put_grp_len|]. split; [exact Hc|]. split; [apply put_grp_same; exact Hi|].
+    split; [assert (GV : forall c, gvalid g1 c <-> gvalid g c) by (intros c; rewrite F1; split; intros X; exact X); apply GV; exact F2|].
+    unfold goffset at 1. rewrite (gtotals_put e i g g1 Hg E1). fold (goffset e i).
+    assert (GR : forall c, grank g1 c = grank g c) by (intros c; rewrite F1; apply grank_set_pos). rewrite GR.
+    assert (RG1 : 0 <= grank g (pos_of g1) < gtotal g).
+    { unfold grank, gtotal, gvalid, gwf in *. destruct (g_aliased g); [apply rank_al_range | apply rank_plain_range]; assumption. }
+    rewrite F3 in *. rewrite Z.mod_small by lia. lia.
+Qed.
+
+Fixpoint selects_back (k : nat) (e : eng) : res eng :=
+  match k with O => Ok e | S k' => do e1 <- select e (-1); selects_back k' e1 end.
+
+(* k menu-complete-backward steps from rank r end on rank (r - k) mod N *)
+Theorem backward_steps : forall k e r, all_wf e -> estate e r ->
+  exists e', selects_back k e = Ok e' /\ all_wf e' /\ gtotals e' = gtotals e /\ estate e' ((r - Z.of_nat k) mod Gtotal e).
+Proof.
+  induction k as [|k IH]; intros e r W S.
+  - exists e. pose proof (estate_range e r W S). cbn [selects_back Z.of_nat]. rewrite Z.sub_0_r. rewrite Z.mod_small by lia.
+    repeat split; try assumption; reflexivity.
+  - pose proof (estate_range e r W S) as Rr. destruct S as (i & g & Hc & Hg & V & Er).
+    destruct (select_backward_step e i g W Hc Hg V) as (e1 & i1 & g1 & S1 & W1 & T1 & L1 & C1 & G1 & V1 & R1).
+    assert (GT : Gtotal e1 = Gtotal e) by (unfold Gtotal; rewrite T1; reflexivity).
+    assert (S1' : estate e1 ((r - 1) mod Gtotal e)) by (exists i1, g1; repeat split; try assumption; rewrite R1, Er; reflexivity).
+    destruct (IH e1 ((r - 1) mod Gtotal e) W1 S1') as (e' & Sk & Wk & Tk & Ek).
+    exists e'. cbn [selects_back]. rewrite S1. cbn [bind]. split; [exact Sk|]. split; [exact Wk|]. split; [congruence|].
+    rewrite GT in Ek. replace (r - Z.of_nat (S k)) with ((r - 1) - Z.of_nat k) by lia.
+    rewrite Zminus_mod_idemp_l in Ek. exact Ek.
+Qed.
+
+Lemma nth_grp_in_range : forall e i, 0 <= i < zlen (e_groups e) -> exists g, nth_grp e i = Some g.
+Proof.
+  intros e i H. unfold nth_grp. replace (i <? 0) with false by lia.
+  destruct (nth_error (e_groups e) (Z.to_nat i)) eqn:NE; [eexists; reflexivity|].
+  apply nth_error_None in NE. unfold zlen in H. lia.
+Qed.
+
+Lemma aliased_fresh_backward : forall g, wf_aliased g -> g_px g = -1 -> g_py g = -1 ->
+  move_selector g 0 (-1) = Ok (set_pos g 0 0, true, false).
+Proof.
+  intros g (A & MY & NC & N & MX & R) PX PY. unfold move_selector. rewrite PX, PY. cbn -[idx Z.sub nrows find_first Z.ltb].
+  change (0 <? 0) with false. cbn [bind]. change (-2 <? 0) with true. cbv iota. reflexivity.
+Qed.
+
+(* the first menu-complete-backward of a fresh engine shows the last candidate *)
+Theorem first_select_back : forall e g0 rest, all_wf e -> e_cur e = -1 -> e_groups e = g0 :: rest -> g_px g0 = -1 -> g_py g0 = -1 ->
+  exists e', select e (-1) = Ok e' /\ all_wf e' /\ gtotals e' = gtotals e /\ estate e' (Gtotal e - 1).
+Proof.
+  intros e g0 rest W Hc Hg PX PY.
+  assert (H0 : nth_grp e 0 = Some g0) by (unfold nth_grp; rewrite Hg; reflexivity).
+  pose proof (W 0 g0 H0) as Wg. pose proof (gwf_nonempty g0 Wg) as Ng.
+  unfold select, current. rewrite Hc. change (0 <=? -1) with false. rewrite Hg. cbn [first_nonempty]. replace (0 <? nrows g0) with true by lia.
+  cbn [e_cur]. change (nth_grp {| e_groups := g0 :: rest; e_cur := 0 |} 0) with (Some g0). cbv iota beta. replace (nrows g0 =? 0) with false by lia.
+  assert (MS : move_selector g0 (fst (gdir g0 (-1))) (snd (gdir g0 (-1))) = Ok (set_pos g0 0 0, true, false)).
+  { unfold gdir, gwf in *. destruct (g_aliased g0); cbn [fst snd]; [apply aliased_fresh_backward | apply plain_fresh_backward]; assumption. }
+  assert (D : (if g_aliased g0 then (0, -1) else (-1, 0)) = gdir g0 (-1)) by reflexivity. rewrite D.
+  destruct (gdir g0 (-1)) as [dx dy]. cbn [fst snd] in MS. rewrite MS. cbn [bind negb].
+  set (e0 := {| e_groups := g0 :: rest; e_cur := 0 |}).
+  assert (W0 : all_wf e0) by (intros j gj Hj; apply (W j gj); unfold nth_grp in *; rewrite Hg; exact Hj).
+  assert (H00 : nth_grp e0 0 = Some g0) by reflexivity.
+  set (e1 := put_grp e0 0 (set_pos g0 0 0)).
+  assert (W1 : all_wf e1) by (apply all_wf_put; [exact W0 | lia | exact Wg]).
+  assert (T1 : gtotals e1 = gtotals e) by (unfold e1; rewrite (gtotals_put e0 0 g0 _ H00 (gtotal_set_pos g0 0 0)); unfold gtotals; cbn [e_groups e0]; rewrite Hg; reflexivity).
+  assert (L1 : zlen (e_groups e1) = zlen (e_groups e)) by (unfold e1; rewrite put_grp_len; cbn [e_groups e0]; rewrite Hg; reflexivity).
+  assert (Le : 0 < zlen (e_groups e)) by (rewrite Hg; unfold zlen; cbn [length]; lia).
+  rewrite (cycle_group_step (length (e_groups e1)) e1 (-1) W1) by (cbn [e_cur put_grp e1 e0]; try lia; right; reflexivity).
+  cbn [bind]. change (0 <? -1) with false. cbv iota. change (e_cur e1) with 0. change (0 =? 0) with true. cbv iota. rewrite L1.
+  set (i' := zlen (e_groups e) - 1).
+  set (e2 := {| e_groups := e_groups e1; e_cur := i' |}).
+  assert (N2 : forall j, nth_grp e2 j = nth_grp e1 j) by reflexivity.
+  destruct (nth_grp_in_range e2 i' ltac:(cbn [e_groups e2]; rewrite L1; subst i'; lia)) as [ng G2].
+  cbn [e_cur e2]. rewrite G2.
+    assert (Wn : gwf ng) by (apply (W1 i' ng); rewrite <- N2; exact G2).
+    destruct (group_last ng Wn) as (lg & LC & LE & LV & LR). rewrite LC. cbn [bind].
+    assert (W2 : all_wf e2) by (intros j gj Hj; apply (W1 j gj); rewrite <- N2; exact Hj).
+    assert (TL : gtotal lg = gtotal ng) by (rewrite LE; apply gtotal_set_pos).
+    assert (GRl : forall c, grank lg c = grank ng c) by (intros c; rewrite LE; apply grank_set_pos).
+    assert (GVl : forall c, gvalid lg c <-> gvalid ng c) by (intros c; rewrite LE; split; intros X; exact X).
+    exists (put_grp e2 i' lg). split; [reflexivity|]. split; [apply all_wf_put; [exact W2 | unfold i'; lia | rewrite LE; exact Wn]|].
+    split; [rewrite (gtotals_put e2 i' ng lg G2 TL); exact T1|].
+    exists i', lg. split; [reflexivity|].
+    split; [apply put_grp_same; cbn [e_groups e2]; rewrite L1; unfold i'; lia|]. split; [apply GVl; exact LV|].
+    unfold goffset. rewrite (gtotals_put e2 i' ng lg G2 TL). change (gtotals e2) with (gtotals e1). rewrite T1. fold (goffset e i').
+    rewrite GRl, LR.
+    (* the totals of the group at i' in e1 and in e are the same entry of gtotals *)
+    assert (NT : nth (Z.to_nat i') (gtotals e1) 0 = gtotal ng) by (apply nth_gtotals; rewrite <- N2; exact G2).
+    rewrite T1 in NT.
+    assert (GS : goffset e (i' + 1) = goffset e i' + gtotal ng).
+    { assert (LT : (Z.to_nat i' < length (gtotals e))%nat).
+      { pose proof (gtotals_len e) as GL. unfold zlen in GL. unfold i', zlen. unfold zlen in Le. lia. }
+      unfold goffset. replace (Z.to_nat (i' + 1)) with (S (Z.to_nat i')) by (unfold i'; unfold zlen in *; lia).
+      rewrite firstn_succ_nth by exact LT. rewrite zsum_app. cbn [zsum]. rewrite NT. lia. }
+    assert (E2 : i' + 1 = zlen (e_groups e)) by (subst i'; lia). rewrite E2 in GS. rewrite goffset_all in GS. lia.
+Qed.
